@@ -10,6 +10,8 @@ use std::io::{Error, ErrorKind, Read};
 use std::num::NonZeroUsize;
 
 struct Scripted {
+    /// the error kind that script value -3 stands for in this run
+    hard_b: ErrorKind,
     script: Vec<i64>,
     idx: usize,
     next_byte: u8,
@@ -25,7 +27,7 @@ impl Read for Scripted {
             0 => Ok(0),
             -1 => Err(Error::new(ErrorKind::Interrupted, "EINTR")),
             -2 => Err(Error::new(ErrorKind::Other, "errA")),
-            -3 => Err(Error::new(ErrorKind::BrokenPipe, "errB")),
+            -3 => Err(Error::new(self.hard_b, "errB")),
             k => {
                 let n = (k as usize).min(buf.len());
                 for b in buf[..n].iter_mut() {
@@ -38,12 +40,24 @@ impl Read for Scripted {
     }
 }
 
-fn code(e: &Error) -> i64 {
+fn code(e: &Error, hard_b: ErrorKind) -> i64 {
     match e.kind() {
         ErrorKind::Interrupted => -1,
         ErrorKind::Other => -2,
-        ErrorKind::BrokenPipe => -3,
+        k if k == hard_b => -3,
         _ => -9,
+    }
+}
+
+fn kind_of(name: &str) -> ErrorKind {
+    match name {
+        "WouldBlock" => ErrorKind::WouldBlock,
+        "TimedOut" => ErrorKind::TimedOut,
+        "UnexpectedEof" => ErrorKind::UnexpectedEof,
+        "WriteZero" => ErrorKind::WriteZero,
+        "InvalidData" => ErrorKind::InvalidData,
+        "ConnectionReset" => ErrorKind::ConnectionReset,
+        _ => ErrorKind::BrokenPipe,
     }
 }
 
@@ -58,7 +72,8 @@ pub fn drive_readn(ops: &str, trace: &str) {
         let prep = run.cfg["prep"].as_i64().unwrap_or(-1);
         out.emit(&json!({"run":run.run,"ev":"reset"}));
         let live0 = (ByteArena::num_live_chunks(), ByteArena::num_live_bytes());
-        let mut rd = Scripted { script: script.clone(), idx: 0, next_byte: 0, calls: vec![] };
+        let hard_b = kind_of(run.cfg["hard_b"].as_str().unwrap_or("BrokenPipe"));
+        let mut rd = Scripted { hard_b, script: script.clone(), idx: 0, next_byte: 0, calls: vec![] };
         // result: (ok, err code, returned bytes, codec output, bytes fed to the decoder)
         let r = guarded(|| -> (i64, i64, Vec<u8>, Vec<u8>, Vec<u8>) {
             match entry.as_str() {
@@ -67,7 +82,7 @@ pub fn drive_readn(ops: &str, trace: &str) {
                     crate::stream::prep_arena(&mut arena, prep);
                     match arena.read_n(&mut rd, count, attempts) {
                         Ok(a) => (1, 0, a.slice().to_vec(), vec![], vec![]),
-                        Err(e) => (0, code(&e), vec![], vec![], vec![]),
+                        Err(e) => (0, code(&e, hard_b), vec![], vec![], vec![]),
                     }
                 }
                 "enc_read_n" | "encode_read" => {
@@ -76,12 +91,12 @@ pub fn drive_readn(ops: &str, trace: &str) {
                     let (ok, err, got) = if entry == "enc_read_n" {
                         match enc.read_n(&mut rd, count, attempts) {
                             Ok(a) => (1, 0, a.slice().to_vec()),
-                            Err(e) => (0, code(&e), vec![]),
+                            Err(e) => (0, code(&e, hard_b), vec![]),
                         }
                     } else {
                         match enc.encode_read(&mut rd, count, attempts) {
                             Ok(n) => (1, 0, (1..=n).map(|i| (i % 256) as u8).collect()),
-                            Err(e) => (0, code(&e), vec![]),
+                            Err(e) => (0, code(&e, hard_b), vec![]),
                         }
                     };
                     enc.encode_copy(b"yz");
@@ -95,7 +110,7 @@ pub fn drive_readn(ops: &str, trace: &str) {
                     let (ok, err, got) = if entry == "dec_read_n" {
                         match dec.read_n(&mut rd, count, attempts) {
                             Ok(a) => (1, 0, a.slice().to_vec()),
-                            Err(e) => (0, code(&e), vec![]),
+                            Err(e) => (0, code(&e, hard_b), vec![]),
                         }
                     } else {
                         match dec.decode_read(&mut rd, count, attempts) {
@@ -104,7 +119,7 @@ pub fn drive_readn(ops: &str, trace: &str) {
                                 fed.extend_from_slice(&d);
                                 (1, 0, d)
                             }
-                            Err(e) => (0, code(&e), vec![]),
+                            Err(e) => (0, code(&e, hard_b), vec![]),
                         }
                     };
                     // complete the 252-byte first chunk and terminate the message
